@@ -36,6 +36,8 @@ class Gen:
         self.budget = rng.randint(3, prof['n_max'])
         self.hostile = prof.get('hostile')
         self.injected = set()
+        self.rec_done = {}       # rec consumer -> inner nodes of its subgraph
+        self.last_sub = []
 
     def new_node(self, **kw):
         nid = f'N{self.n}'
@@ -108,6 +110,13 @@ class Gen:
             pname = 'abcdef'[i]
             mark = self.make_mark(node, local_visible, depth, in_rec, in_cand)
             node['params'].append([pname, mark])
+            if mark[0] == 'rec':
+                inner = [x for x in self.last_sub if x != mark[2]]
+                self.rec_done[nid] = inner
+                if inner and rng.random() < p.get('p_rec_inner_read', 0.25):
+                    # ordered outside consumer: the node that consumes the recurrent result also reads
+                    # a node inside the subgraph (must see its final-iteration value)
+                    node['params'].append([f'r{len(node["params"])}', ['in', rng.choice(inner)]])
         self.decorate(node)
         self.finish(node)
         return nid
@@ -142,13 +151,20 @@ class Gen:
     def make_switch(self, visible, depth, in_rec, in_cand):
         rng = self.rng
         # decider
+        after_rec = None
         sh = self.shareable(visible, in_rec)
         if sh and rng.random() < 0.3 and False:
             decider = rng.choice(sh)
         else:
             dn = self.new_node(kind='decider')
             self.flags[dn['id']].add('decider')
-            dn['params'].append(['a', ['in', self.pick_dep(visible, depth - 1, in_rec, in_cand)]])
+            recs = [v for v in visible if v in self.rec_done and self.rec_done[v]]
+            after_rec = None
+            if recs and rng.random() < self.p.get('p_rec_inner_read', 0.25) * 2:
+                after_rec = rng.choice(recs)
+                dn['params'].append(['a', ['in', after_rec]])
+            else:
+                dn['params'].append(['a', ['in', self.pick_dep(visible, depth - 1, in_rec, in_cand)]])
             decider = dn['id']
         ncases = rng.randint(1, 3)
         labels = [f'L{i}' for i in range(ncases)]
@@ -156,6 +172,10 @@ class Gen:
         for lab in labels:
             c = self.make(list(visible), depth - 1, in_rec=in_rec, in_cand=in_cand, role='case')
             cases.append([lab, c])
+            if after_rec is not None and rng.random() < 0.7:
+                # the case sub-pipeline starts only after the recurrent result exists (decider depends on
+                # it) and reads a node inside the subgraph
+                self.nodes[c]['params'].append([f'r{len(self.nodes[c]["params"])}', ['in', rng.choice(self.rec_done[after_rec])]])
         dn = self.nodes[decider]
         dn['plan']['labels'] = list(labels)
         if self.hostile == 'switch_unknown_label' and 'switch_unknown_label' not in self.injected:
@@ -227,6 +247,16 @@ class Gen:
         if rng.random() < 0.5:
             want = {str(v): rng.randint(0, mx + 1) for v in self.p['inputs']}
         dest['plan'].update({'start': sid, 'want_iter': want})
+        # nodes really on a dependency path start -> dest (dangling mids are not part of the subgraph)
+        on_path = set()
+        st = [did]
+        while st:
+            x = st.pop()
+            if x in on_path:
+                continue
+            on_path.add(x)
+            st.extend(m[1] for _, m in self.nodes[x]['params'] if m[0] == 'in' and m[1] in sub)
+        self.last_sub = [x for x in sub if x in on_path] + [did]
         if rng.random() < 0.5:
             dest['retry'] = {'use_default': True}
         self.finish(dest)
@@ -368,6 +398,27 @@ def pessimistic_tags(prog):
     return out
 
 
+def _ordered_after(prog, cons, y, dest):
+    """Is node y started only after the recurrent destination `dest` has its final value?
+    True if a consumer of dest (through the Rec mark) is an ancestor of y or y itself, or y belongs to
+    the sub-pipeline of a switch case whose decider has such an ancestor."""
+    rcons = {c for c, _, k in cons[dest] if k == 'dest'}
+    if not rcons:
+        return False
+    if y in rcons or rcons & ancestors(prog, y):
+        return True
+    # y inside a case sub-pipeline whose decider is ordered after dest
+    for nid, node in prog['nodes'].items():
+        for _, m in node.get('params', []):
+            if m[0] == 'sw':
+                dec_anc = ancestors(prog, m[2]) | {m[2]}
+                if rcons & dec_anc:
+                    for _, c in m[3]:
+                        if y == c:
+                            return True
+    return False
+
+
 def analyze(prog):
     """Hostile-family tags (structural)."""
     tags = set()
@@ -416,7 +467,10 @@ def analyze(prog):
                 continue
             for c, _, _ in cons[n]:
                 if c in reach and c not in sub:
-                    tags.add('rec_outside_consumer')
+                    if _ordered_after(prog, cons, c, dest):
+                        tags.add('rec_inner_read_ordered')
+                    else:
+                        tags.add('rec_outside_consumer')
             for _, m in nodes[n].get('params', []):
                 if m[0] in ('sw', 'oneof'):
                     tags.add('rec_inner_' + m[0])
